@@ -12,11 +12,13 @@ EXTENDS Naturals, Sequences, TLC, FiniteSets
 \* statements without a command (legal: `name =` unsets the variable, `:label` only defines the label; "none" is a
 \* line that has only the first statement's label / output variable, or is blank): they run and continue, and
 \* lint still looks at their label and output variable ("OUT", "LBL" carry an upper-case letter)
-NoCmdKinds == {"none", "out", "OUT", "lbl", "LBL"}
+\* "pre": a pre-processor line (`!print pp`, printed while the text is parsed): not an instruction with names, and neither
+\* running nor linting stops at it
+NoCmdKinds == {"none", "out", "OUT", "lbl", "LBL", "pre"}
 \* exit256: a non-zero exit value whose low eight bits are zero - still a failed run
 \* xecho: `exec echo child` - a child process writing to the inherited standard output, between the script's own lines
 Kinds == {"echo", "xecho", "crash", "exit3", "exit256", "exit0", "badquote", "unknowncmd", "ECHO"} \cup NoCmdKinds
-FirstKinds == Kinds \ {"out", "OUT", "lbl", "LBL"}    \* the first statement takes its label / output from s.label / s.out
+FirstKinds == Kinds \ {"out", "OUT", "lbl", "LBL", "pre"}    \* the first statement takes its label / output from s.label / s.out
 Terminates(k) == k \in {"crash", "exit3", "exit256", "exit0", "unknowncmd", "ECHO"}
 RECURSIVE RunFrom(_,_)
 RunFrom(st, i) == IF i > Len(st) THEN "ok"
